@@ -22,7 +22,8 @@ RT = os.path.join(VERIF, 'rt', 'rt.rs')
 STATE_POOL = ['Idle', 'Active', 'Done', 'HTTPServer', 'IOError', 'S9', 'LaunchPrep', 'Standby', 'Zed', 'Alpha',
               'Beta', 'Busy', 'Wait2', 'ParseXML', 'Q', 'Run2Go']
 SUPER_POOL = ['Flight', 'Group', 'Outer', 'Inner', 'Zone', 'Ring1']
-EVENT_POOL = ['go', 'stop', 'launch', 'tick', 'next', 'reset', 'x1', 'set_thrust', 'enter_half_open', 'http_get', 'io', 'k_9']
+EVENT_POOL = ['go', 'stop', 'launch', 'tick', 'next', 'reset', 'x1', 'set_thrust', 'enter_half_open', 'http_get', 'io', 'k_9',
+              'verify_2fa', 'retry_3x', 'phase_2_start']
 MACHINE_POOL = ['Machine', 'Deck', 'Ctl', 'Fsm', 'HTTPConn', 'Door2']
 
 def hook_names(kind, payload, n=3):
